@@ -58,6 +58,10 @@ def dispatch(args):
         if args.runs:
             runs = args.runs
         return checkA.run_check(what, profile, level, tier, seed, models, runs, rule, ASSUME_A)
+    if what == 'C12':
+        from . import checkC12
+        u, h = (16, 60) if tier == 'quick' else (240, 400)
+        return checkC12.run_check(tier, seed, args.models or u, args.runs or h)
     if what == 'C16':
         from . import checkC16
         u, h = (24, 120) if tier == 'quick' else (400, 500)
@@ -80,6 +84,9 @@ def replay(prop, path):
     if rp.get('world') == 'B' and rp.get('check') == 'C16':
         from . import checkC16
         return checkC16.replay(path)
+    if rp.get('world') == 'B' and rp.get('check') == 'C12':
+        from . import checkC12
+        return checkC12.replay(path)
     if rp.get('world') == 'C':
         from . import checkC08
         return checkC08.replay(path)
